@@ -49,7 +49,18 @@ impl PatternSet {
         false
     }
 
+    /// Returns the index of the next UTF-8 character boundary after `idx`.
+    fn next_char_boundary(input: &[u8], idx: usize) -> usize {
+        let mut idx = idx.saturating_add(1);
+        while idx < input.len() && (input[idx] & 0xC0) == 0x80 {
+            idx += 1;
+        }
+        idx
+    }
+
     /// <https://leetcode.com/problems/wildcard-matching/>
+    ///
+    /// Both `pattern` and `input` are UTF-8 strings. `?` and `*` consume whole characters.
     fn match_pattern(pattern: &[u8], input: &[u8]) -> bool {
         let mut p_idx = 0;
         let mut s_idx = 0;
@@ -69,7 +80,12 @@ impl PatternSet {
 
                 if s_idx < input.len() {
                     let c = input[s_idx];
-                    if p == c || p == b'?' {
+                    if p == b'?' {
+                        p_idx += 1;
+                        s_idx = Self::next_char_boundary(input, s_idx);
+                        continue;
+                    }
+                    if p == c {
                         p_idx += 1;
                         s_idx += 1;
                         continue;
@@ -83,8 +99,9 @@ impl PatternSet {
                 return true;
             }
 
-            if s_back + 1 < input.len() {
-                s_back += 1;
+            let next_back = Self::next_char_boundary(input, s_back);
+            if next_back < input.len() {
+                s_back = next_back;
                 p_idx = p_back;
                 s_idx = s_back;
                 continue;
